@@ -22,6 +22,7 @@ from .core import (
     NEG_INF,
     OBJ,
     OPTINT,
+    OPTREAL,
     REAL,
     STR,
     Obligation,
@@ -366,12 +367,14 @@ class Interp:
     def term(self, v, ty=None):
         """z3 term for a value (ty gives the expected type for None/tuples)."""
         if isinstance(v, Sym):
-            if ty is REAL and v.ty is INT:
+            if ty in (REAL, OPTREAL) and v.ty in (INT, OPTINT):
                 return z3.ToReal(v.t)
             return v.t
         if ty is INTINF and isinstance(v, float) and v == float("inf"):
             return z3.IntVal(-1)
         if v is None:
+            if ty is OPTREAL:
+                return INF
             return z3.IntVal(-1) if ty is OPTINT else z3.IntVal(0)
         if isinstance(v, bool):
             return z3.BoolVal(v)
@@ -800,6 +803,8 @@ class Interp:
             self.exec_stmt(s, env, f)
 
     def exec_stmt(self, s, env, f):
+        if self.ctx.unit.abstract_stmt(self, s, env, f):
+            return None  # the unit replaced this statement by its stated abstraction (listed in the evidence)
         m = getattr(self, "st_" + type(s).__name__, None)
         if m is None:
             raise Unsupported(f"statement {type(s).__name__} at {f.qualname}:{s.lineno}")
@@ -1239,7 +1244,7 @@ class Interp:
                     if flip:  # y OP x
                         return {ast.Lt: big, ast.LtE: big, ast.Gt: not big, ast.GtE: not big}[o]
                     return {ast.Lt: not big, ast.LtE: not big, ast.Gt: big, ast.GtE: big}[o]
-            real = any(isinstance(v, float) or (isinstance(v, Sym) and v.ty is REAL) for v in (a, b))
+            real = any(isinstance(v, float) or (isinstance(v, Sym) and v.ty in (REAL, OPTREAL)) for v in (a, b))
             ty = REAL if real else INT
             ta, tb = self.term(a, ty), self.term(b, ty)
             return _Z3CMP[type(op)](ta, tb)
@@ -1298,6 +1303,8 @@ class Interp:
             if other is None:
                 if sa.ty is OPTINT:
                     return sa.t == -1
+                if sa.ty is OPTREAL:
+                    return sa.t == INF
                 if sa.ty.sort() == z3.IntSort() and sa.ty is not INT:
                     return sa.t == 0
                 return False
@@ -1395,7 +1402,7 @@ def _is_pynum(v):
 
 
 def _is_num(v):
-    return _is_pynum(v) or (isinstance(v, Sym) and v.ty in (INT, REAL, OPTINT))
+    return _is_pynum(v) or (isinstance(v, Sym) and v.ty in (INT, REAL, OPTINT, OPTREAL))
 
 
 import operator  # noqa: E402
